@@ -23,10 +23,10 @@ type mAgent struct {
 	idx     int
 	client  string
 	mu      mod.DistributedMutex
-	busy    bool   // a Lock or Unlock call is executing
-	inLock  bool   // the executing call is Lock
-	waiting bool   // the Lock call sits in its retry loop (last spinLock returned without the lock)
-	calls   int    // database operations issued by the current Lock call
+	busy    bool // a Lock or Unlock call is executing
+	inLock  bool // the executing call is Lock
+	waiting bool // the Lock call sits in its retry loop (last spinLock returned without the lock)
+	calls   int  // database operations issued by the current Lock call
 	cancel  context.CancelFunc
 	parked  chan *memongo.Op
 	release chan string
